@@ -287,9 +287,10 @@ pub fn build_seq<N: Nd>(n: &mut N, with_hash: bool, ranks: u8) {
             assert!(got == stage);
         }
     }
-    vcover!(want_ok && p.ep < 8, "an accepted state with an en passant square");
+    vcover!(want_ok && p.ep < 8, "@r1458|r148|r158|build_seq$|build_seq_hash an accepted state with an en passant square");
     vcover!(!want_ok && board_ok && ck_ok && castle_ok && !ep_rank_ok, "en passant square on the wrong rank");
     vcover!(!want_ok && board_ok && ck_ok && !castle_ok && p.castle[0][0] < 8, "right on the wrong side of the king or without rook");
+    vcover!(want_ok && p.castle[0][0] < 8 && p.castle[1][1] < 8, "@r1458|r148|r158|build_seq$|build_seq_hash accepted with castling rights for both sides");
     vcover!(board_ok && !ck_ok, "three checkers");
 }
 
@@ -494,6 +495,30 @@ crate::bproofs! {
     c09_from_board_n4 => |n: &mut _| from_board(n, 4);
     c09_from_board_n16 => |n: &mut _| from_board(n, 16);
     c06_startpos => startpos;
+    #[kani::stub(cozy_chess::Board::board_is_valid, crate::c06::stub_board_is_valid)]
+    #[kani::stub(cozy_chess::Board::checkers_and_pins_are_valid, crate::c06::stub_ckpin_valid)]
+    #[kani::stub(cozy_chess::Board::castle_rights_are_valid, crate::c06::stub_castle_valid)]
+    #[kani::stub(cozy_chess::Board::en_passant_is_valid, crate::c06::stub_ep_valid)]
+    #[kani::stub(cozy_chess::Board::calculate_checkers_and_pins, crate::c06::stub_calc)]
+    c09_build_seq_r148 => |n: &mut _| build_seq(n, false, 0b10001001);
+    #[kani::stub(cozy_chess::Board::board_is_valid, crate::c06::stub_board_is_valid)]
+    #[kani::stub(cozy_chess::Board::checkers_and_pins_are_valid, crate::c06::stub_ckpin_valid)]
+    #[kani::stub(cozy_chess::Board::castle_rights_are_valid, crate::c06::stub_castle_valid)]
+    #[kani::stub(cozy_chess::Board::en_passant_is_valid, crate::c06::stub_ep_valid)]
+    #[kani::stub(cozy_chess::Board::calculate_checkers_and_pins, crate::c06::stub_calc)]
+    c09_build_seq_r158 => |n: &mut _| build_seq(n, false, 0b10010001);
+    #[kani::stub(cozy_chess::Board::board_is_valid, crate::c06::stub_board_is_valid)]
+    #[kani::stub(cozy_chess::Board::checkers_and_pins_are_valid, crate::c06::stub_ckpin_valid)]
+    #[kani::stub(cozy_chess::Board::castle_rights_are_valid, crate::c06::stub_castle_valid)]
+    #[kani::stub(cozy_chess::Board::en_passant_is_valid, crate::c06::stub_ep_valid)]
+    #[kani::stub(cozy_chess::Board::calculate_checkers_and_pins, crate::c06::stub_calc)]
+    c09_build_seq_r267 => |n: &mut _| build_seq(n, false, 0b01100010);
+    #[kani::stub(cozy_chess::Board::board_is_valid, crate::c06::stub_board_is_valid)]
+    #[kani::stub(cozy_chess::Board::checkers_and_pins_are_valid, crate::c06::stub_ckpin_valid)]
+    #[kani::stub(cozy_chess::Board::castle_rights_are_valid, crate::c06::stub_castle_valid)]
+    #[kani::stub(cozy_chess::Board::en_passant_is_valid, crate::c06::stub_ep_valid)]
+    #[kani::stub(cozy_chess::Board::calculate_checkers_and_pins, crate::c06::stub_calc)]
+    c09_build_seq_r237 => |n: &mut _| build_seq(n, false, 0b01000110);
     #[kani::stub(cozy_chess::Board::board_is_valid, crate::c06::stub_board_is_valid)]
     #[kani::stub(cozy_chess::Board::checkers_and_pins_are_valid, crate::c06::stub_ckpin_valid)]
     #[kani::stub(cozy_chess::Board::castle_rights_are_valid, crate::c06::stub_castle_valid)]
